@@ -704,6 +704,67 @@ fn shape_case(shapes: &[Vec<usize>], offsets: &[usize], i: usize) -> CaseResult 
 }
 
 // ------------------------------------------------------------------------------------------------
+// (v) clauses that name a rule or call a parameterised rule, alone and as `or` alternatives
+
+fn named_case(i: usize) -> CaseResult {
+    // document {"k": 1}; R and f(p) forced to PASS / FAIL / SKIP
+    let status = [St::Pass, St::Fail, St::Skip][i % 3];
+    let users_first = i / 3 == 1;
+    let r_body = ["k == 1", "k == 2", "when k == 2 {\n    k == 1\n  }"][i % 3];
+    let f_body = ["%p == 1", "%p == 2", "when %p == 2 {\n    %p == 1\n  }"][i % 3];
+    let defs = format!("rule R {{\n  {}\n}}\nrule f(p) {{\n  {}\n}}\n", r_body, f_body);
+    let named = |x: &str| -> St {
+        match x {
+            "R" => if status == St::Pass { St::Pass } else { St::Fail },
+            "not R" | "not f(k)" => if status != St::Pass { St::Pass } else { St::Fail },
+            // a call takes the status of the called rule
+            _ => status,
+        }
+    };
+    let leaves = [("k == 1", St::Pass), ("k == 2", St::Fail), ("when k == 2 {\n    k == 1\n  }", St::Skip)];
+    let mut users = String::new();
+    let mut want: Vec<(String, St)> = vec![];
+    let mut n = 0;
+    for x in ["R", "not R", "f(k)", "not f(k)"] {
+        n += 1;
+        users.push_str(&format!("rule n{} {{\n  {}\n}}\n", n, x));
+        want.push((format!("n{}", n), named(x)));
+        for (lt, ls) in &leaves {
+            for first in [true, false] {
+                n += 1;
+                // a rule reference ends its line: when it comes first the `or` follows on the same line
+                let body = if first { format!("{} or\n  {}", x, lt) } else { format!("{} or\n  {}", lt, x) };
+                users.push_str(&format!("rule n{} {{\n  {}\n}}\n", n, body));
+                want.push((format!("n{}", n), combine_line(&[named(x), *ls])));
+            }
+        }
+    }
+    let text = if users_first { format!("{}{}", users, defs) } else { format!("{}{}", defs, users) };
+    let doc = "{\"k\": 1}";
+    let case = json!({"kind": "named", "index": i, "doc": doc, "rules": text});
+    let (v, rec) = verdict(doc, &text);
+    match &v {
+        Verdict::Ok { rules, .. } => {
+            for (name, w) in &want {
+                let got = rules.iter().find(|(k, _)| k == name).map(|(_, s)| *s);
+                if got != Some(*w) {
+                    let body: String = text.split(&format!("rule {} {{\n", name)).nth(1).unwrap_or("").split("\n}\n").next().unwrap_or("").to_string();
+                    return CaseResult::Fail(Failure { msg: format!("with R and f forced to {}: rule {} `{}` must be {} but is {:?}", status.text(), name, body.replace('\n', " "), w.text(), got.map(|s| s.text())), sig: "c02:named-clause".into(), case });
+                }
+            }
+        }
+        other => return CaseResult::Fail(Failure { msg: format!("did not evaluate: {}", other.short()), sig: "c02:named-clause-eval".into(), case }),
+    }
+    if let Some(rec) = rec {
+        let hints = hints_from_parse_tree(&text);
+        if let Err(e) = check_record(&rec, hints.as_ref()) {
+            return CaseResult::Fail(Failure { msg: e, sig: "c02:record-inconsistent".into(), case });
+        }
+    }
+    CaseResult::Pass(Info { nontrivial: true, key: hash_case(&[&text]), classes: vec![format!("named-clauses:{}", status.text())], evals: 1, sample: if i == 2 { Some(case) } else { None } })
+}
+
+// ------------------------------------------------------------------------------------------------
 // (iv) blocks evaluated once per selected value: the block's status over all values
 
 const VALUE_SITES: [&str; 5] = ["type-block", "file-level-type-block", "query-block", "filter-block", "some-query-block"];
@@ -960,6 +1021,9 @@ fn multi_case(u: &mut Choices, sz: Size) -> CaseResult {
 }
 
 pub fn replay(case: &J) -> CaseResult {
+    if case["kind"] == "named" {
+        return named_case(case["index"].as_u64().unwrap_or(0) as usize);
+    }
     if case["kind"] == "values" {
         let vectors = value_vectors();
         let site = VALUE_SITES.iter().position(|s| Some(*s) == case["site"].as_str()).unwrap_or(0);
@@ -1008,7 +1072,7 @@ pub fn replay(case: &J) -> CaseResult {
 
 pub fn run(tier: Tier, seed: u64) -> i32 {
     let spec = EvidenceSpec {
-        rule: "Stage 'shapes' enumerates CNF shapes (lines x alternatives per line) x call site of the combinator {rule body, rule when, when-block condition, when-block body, query-block body, type-block body, filter, default rule}; one case evaluates ALL 3^leaves assignments of forced PASS/FAIL/SKIP leaf clauses of that shape at that site and compares the rule's status with the property's combinator, and also runs the record checker on every record. Stage 'values' enumerates every PASS/FAIL/SKIP vector of 1-3 selected values (resources whose block status is forced by a marker property) for the blocks that run once per value - type block in a rule and at file level, query block, filter block, `some` query block - and compares the rule's status with the statement's rule (FAIL iff one value's block failed, PASS iff none failed and one passed, else SKIP; `some`: PASS iff one passed). Stage 'random' generates wide programs (type blocks, parameterised rules, nested when/blocks, rule references) on CloudFormation-shaped documents and recomputes every composite node of the verbose record from its children's recorded statuses (rule references against the referenced RuleCheck, negation taken from the parse tree); 1 in 8 cases also checks the root status against the non-verbose library output and the validate exit code. Stage 'multi-document' gives 2-3 documents (variants of one another) to ONE `validate --print-json` invocation (file arguments or a directory), runs the record checker on every record of the stream, requires each record to explain the same statuses as the document evaluated on its own, and the exit code to follow the record roots. Non-trivial: the record contains a composite with >=2 children of unequal status (shapes: an assignment with unequal leaves); distinct by hash of the texts / (shape, site).".into(),
+        rule: "Stage 'shapes' enumerates CNF shapes (lines x alternatives per line) x call site of the combinator {rule body, rule when, when-block condition, when-block body, query-block body, type-block body, filter, default rule}; one case evaluates ALL 3^leaves assignments of forced PASS/FAIL/SKIP leaf clauses of that shape at that site and compares the rule's status with the property's combinator, and also runs the record checker on every record. Stage 'named-clauses': a rule R and a parameterised rule f forced to PASS / FAIL / SKIP; `R`, `not R`, `f(k)`, `not f(k)` alone and as first / second `or` alternative beside a forced PASS / FAIL / SKIP leaf (28 rules per status, definitions before and after their users): rule statuses by the statement's rule and record consistency. Stage 'values' enumerates every PASS/FAIL/SKIP vector of 1-3 selected values (resources whose block status is forced by a marker property) for the blocks that run once per value - type block in a rule and at file level, query block, filter block, `some` query block - and compares the rule's status with the statement's rule (FAIL iff one value's block failed, PASS iff none failed and one passed, else SKIP; `some`: PASS iff one passed). Stage 'random' generates wide programs (type blocks, parameterised rules, nested when/blocks, rule references) on CloudFormation-shaped documents and recomputes every composite node of the verbose record from its children's recorded statuses (rule references against the referenced RuleCheck, negation taken from the parse tree); 1 in 8 cases also checks the root status against the non-verbose library output and the validate exit code. Stage 'multi-document' gives 2-3 documents (variants of one another) to ONE `validate --print-json` invocation (file arguments or a directory), runs the record checker on every record of the stream, requires each record to explain the same statuses as the document evaluated on its own, and the exit code to follow the record roots. Non-trivial: the record contains a composite with >=2 children of unequal status (shapes: an assignment with unequal leaves); distinct by hash of the texts / (shape, site).".into(),
         assumptions: vec![
             "leaf statuses are taken from the record itself (local consistency); leaves are judged by C01".into(),
             "negation of rule references and the body size of `some` blocks are read from the tool's own parse tree (parser, not evaluator)".into(),
@@ -1025,6 +1089,7 @@ pub fn run(tier: Tier, seed: u64) -> i32 {
             Tier::Thorough => shape_count(3, 3),
         };
         run.run_enum("shapes", shapes.len() * SITES.len(), |i| shape_case(&shapes, &[], i));
+        run.run_enum("named-clauses", 6, named_case);
         run.run_enum("values", value_vectors().len() * VALUE_SITES.len(), values_case);
         let sz = tier.pick(Size::quick(), Size::thorough());
         run.run_random("random", tier.pick(60_000, 1_500_000), tier.pick(1200, 2400), |u| random_case(u, sz));
